@@ -153,8 +153,15 @@ impl QueuingMetricSinkBuilder {
 /// sink is stopped.
 #[derive(Clone)]
 pub struct QueuingMetricSink {
-    worker: Arc<Worker>,
+    // Field order matters: fields are dropped in declaration order. A handle
+    // must give up its reference to the wrapped sink *before* it gives up the
+    // worker (and with it, for the last handle, the sending half of the
+    // channel). The background thread keeps its own reference to the wrapped
+    // sink until it has drained the queue, so this way it is always that
+    // thread, never a caller dropping a handle, that ends up dropping the
+    // wrapped sink (which may flush, i.e. do blocking I/O).
     sink: Arc<dyn MetricSink + Send + Sync + RefUnwindSafe>,
+    worker: Arc<Worker>,
 }
 
 impl fmt::Debug for QueuingMetricSink {
